@@ -128,6 +128,7 @@ class Probe:
         except (BrokenPipeError, OSError):
             return self._dead()
         deadline = time.time() + self.timeout
+        last_cpu, same = None, 0
         while b"\n" not in self.buf:
             left = deadline - time.time()
             if left <= 0:
@@ -138,6 +139,20 @@ class Probe:
                 self._start()
                 return {"timeout": True, "cpu_s": cpu}
             r, _, _ = select.select([self.p.stdout], [], [], min(left, 1.0))
+            if not r:
+                # a probe that has been given a request and whose threads are all asleep without consuming any CPU for five
+                # consecutive seconds is blocked for good (it never waits for anything but its own locks): a state, not a timeout
+                cpu = _proc_cpu(self.p.pid)
+                if cpu is not None and cpu == last_cpu and _proc_all_sleeping(self.p.pid):
+                    same += 1
+                    if same >= 5:
+                        self.p.kill()
+                        self.p.wait()
+                        self._start()
+                        return {"blocked": True, "cpu_s": cpu}
+                else:
+                    same = 0
+                last_cpu = cpu
             if r:
                 chunk = os.read(self.p.stdout.fileno(), 1 << 20)
                 if not chunk:
@@ -158,6 +173,16 @@ class Probe:
             err = ""
         self._start()
         return {"died": rc, "stderr": err}
+
+
+def _proc_all_sleeping(pid):
+    try:
+        states = []
+        for t in os.listdir("/proc/%d/task" % pid):
+            states.append(open("/proc/%d/task/%s/stat" % (pid, t)).read().rsplit(")", 1)[1].split()[0])
+        return bool(states) and all(st == "S" for st in states)
+    except Exception:
+        return False
 
 
 def _proc_cpu(pid):
